@@ -1007,6 +1007,9 @@ def _norm(x, ord=None, axis=None, keepdims=False):
     if axis is None:
         flat = arr.ravel().tolist()
         if ord is None or ord == 2 and arr.ndim == 1 or ord == "fro":
+            from . import poly
+            if poly.ON[0] and len(flat) == 1 and isinstance(flat[0], _SYM):
+                return abs(flat[0])  # canonical mode: ||(v)|| = |v| without a root variable (keeps terms univariate)
             s = 0
             for v in flat:
                 s = s + v * v
